@@ -64,8 +64,8 @@ func solveFile(file string, timeoutSecs int, preferCVC5 bool) solverRes {
 		primary = "cvc5"
 	}
 	first := timeoutSecs
-	if first > 4 {
-		first = 4
+	if first > 10 {
+		first = 10
 	}
 	r := runSolver(context.Background(), primary, file, first)
 	if r.status == "sat" || r.status == "unsat" {
